@@ -13,6 +13,7 @@ mod rng;
 mod shape;
 mod srv;
 mod srvw;
+mod srvx;
 mod stransport;
 mod vclock;
 mod wire;
@@ -139,6 +140,25 @@ fn main() {
                 .iter()
                 .filter_map(|l| srv::parse_any(l))
                 .map(|s| srv::any_to_case(&s))
+                .collect();
+            write_cases(&out.expect("--out"), &cases);
+        }
+        ("srvx", "gen") => {
+            let mut rng = Rng::new(seed);
+            let mut w = open_out(&out);
+            for _ in 0..count {
+                writeln!(w, "{}", srv::show_srv(&srvx::gen(&mut rng))).unwrap();
+            }
+        }
+        ("srvx", "sweep") => {
+            let mut w = open_out(&out);
+            srvx::sweep(|s| writeln!(w, "{}", srv::show_srv(&s)).unwrap());
+        }
+        ("srvx", "run") => {
+            let cases: Vec<Case> = read_lines(&input)
+                .iter()
+                .filter_map(|l| srv::parse(l))
+                .map(|s| srvx::to_case(&s))
                 .collect();
             write_cases(&out.expect("--out"), &cases);
         }
